@@ -76,6 +76,156 @@ func runC06(c *Ctx) {
 	}
 	c.Floor("C06.3-claim-create-positive-control", nCreate, 1)
 	c.claimBuilder()
+	c.revisionLabelWriters()
+	c.claimsBeforePodUpdate("C06.2-claims-before-pod-update")
+}
+
+// claimsBeforePodUpdate: in the pod-update primitive, once the storage repair has pointed the pod's
+// volumes at its claims, the pod write is reachable only through a successful createPersistentVolumeClaims.
+// Written the other way round, a fault (or crash) between the two leaves a pod that passes the storage
+// predicate while its claim does not exist: no later reconcile repairs it.
+func (c *Ctx) claimsBeforePodUpdate(rule string) {
+	fi := c.Func(load.CtrlPkg, "realStatefulPodControl.UpdateStatefulPod")
+	cl := c.Func(load.CtrlPkg, "realStatefulPodControl.createPersistentVolumeClaims")
+	repair := c.Func(load.CtrlPkg, "updateStorage")
+	if fi == nil || cl == nil || repair == nil {
+		return
+	}
+	info := fi.Pkg.TypesInfo
+	n := 0
+	for _, s := range c.G.Sites {
+		if s.Fn != fi.Obj || s.Resource != "pods" || s.Class != "write" {
+			continue
+		}
+		// the analysed unit: the literal holding the write (the retry closure), or the function
+		var fn *gf.Fn
+		var an *gf.Analysis
+		var body *ast.BlockStmt
+		if s.InLit != nil {
+			fn, an = c.LitAnalysis(info, s.InLit, fi.Obj.Name()+"$retry")
+			body = s.InLit.Body
+		} else {
+			fn, an = c.Analysis(fi)
+			body = fi.Decl.Body
+		}
+		var repairs, claims []*ast.CallExpr
+		for _, call := range callsIn(body, false) {
+			if f := gf.StaticCallee(info, call); f != nil {
+				switch f.Origin() {
+				case repair.Obj:
+					repairs = append(repairs, call)
+				case cl.Obj:
+					claims = append(claims, call)
+				}
+			}
+		}
+		name := fmt.Sprintf("%s: pods.%s", fi.Obj.Name(), s.Verb)
+		if len(repairs) == 0 || len(claims) == 0 {
+			c.Bad(rule, name, s.Call.Pos(), "the storage repair or the claim creation call is missing next to the pod write")
+			continue
+		}
+		n++
+		var stops []ast.Node
+		for _, cc := range claims {
+			stops = append(stops, stmtOf(body, cc))
+		}
+		okOrder := true
+		for _, rp := range repairs {
+			st := stmtOf(body, rp)
+			aU := fn.FromAfterUntil(st, an.StateAfter(st), stops...)
+			if aU.StateAtExpr(s.Call).Reachable() {
+				okOrder = false
+			}
+		}
+		okErr := true
+		for _, cc := range claims {
+			st := stmtOf(body, cc)
+			errF := c.errNonNilAfter(fn, st, cc)
+			if errF == nil {
+				okErr = false
+				continue
+			}
+			aE := fn.FromAfter(st, an.StateAfter(st).Assume(errF))
+			if aE.StateAtExpr(s.Call).Reachable() {
+				okErr = false
+			}
+		}
+		c.Check(okOrder && okErr, rule, name, s.Call.Pos(), "after the storage repair the pod write is reached only through a successful createPersistentVolumeClaims",
+			"the repaired pod can be written before (or although) its claims could not be created: a fault in between leaves a pod that passes the storage predicate without its claim")
+	}
+	c.Floor(rule+"-sites", n, 1)
+}
+
+// revisionLabelWriters: a pod's revision label is written by setPodRevision only, and setPodRevision is
+// called by the versioned constructor only (where the label is paired with the set the pod is built from,
+// C07.4). Any other writer can make a pod carry the label of a revision it was not built from.
+func (c *Ctx) revisionLabelWriters() {
+	setRev := c.Func(load.CtrlPkg, "setPodRevision")
+	ctor := c.Func(load.CtrlPkg, "newVersionedStatefulSetPod")
+	if setRev == nil || ctor == nil {
+		return
+	}
+	nStore, nCall := 0, 0
+	for _, fi := range c.P.Funcs() {
+		pp := fi.Pkg.PkgPath
+		if pp != load.CtrlPkg && pp != load.K8sPkg {
+			continue
+		}
+		info := fi.Pkg.TypesInfo
+		isRevKey := func(e ast.Expr) bool {
+			tv, ok := info.Types[e]
+			if !ok || tv.Value == nil {
+				return false
+			}
+			return tv.Value.ExactString() == `"controller-revision-hash"`
+		}
+		podLabels := func(e ast.Expr) bool {
+			// <pod>.Labels or <pod>.ObjectMeta.Labels of a v1.Pod
+			sel, ok := ast.Unparen(e).(*ast.SelectorExpr)
+			if !ok || sel.Sel.Name != "Labels" {
+				return false
+			}
+			x := ast.Unparen(sel.X)
+			if s2, ok := x.(*ast.SelectorExpr); ok && s2.Sel.Name == "ObjectMeta" {
+				x = s2.X
+			}
+			return isNamed(info.TypeOf(x), "k8s.io/api/core/v1", "Pod")
+		}
+		ast.Inspect(fi.Decl.Body, func(n ast.Node) bool {
+			switch x := n.(type) {
+			case *ast.AssignStmt:
+				for _, l := range x.Lhs {
+					if ix, ok := ast.Unparen(l).(*ast.IndexExpr); ok && isRevKey(ix.Index) && podLabels(ix.X) {
+						nStore++
+						name := fmt.Sprintf("%s: %s = ...", fi.Obj.Name(), types.ExprString(l))
+						c.Check(fi == setRev, "C06.5-revision-label-writers", name, x.Pos(), "the one writer of the pod revision label", "a pod's revision label is written outside setPodRevision")
+					}
+				}
+			case *ast.CallExpr:
+				if id, ok := x.Fun.(*ast.Ident); ok && id.Name == "delete" && len(x.Args) == 2 && isRevKey(x.Args[1]) && podLabels(x.Args[0]) {
+					c.Bad("C06.5-revision-label-writers", fi.Obj.Name()+": delete of the revision label", x.Pos(), "a pod's revision label is removed")
+				}
+				if gf.StaticCallee(info, x) == setRev.Obj {
+					nCall++
+					name := fmt.Sprintf("%s: %s", fi.Obj.Name(), clip(types.ExprString(x), 60))
+					okCaller := fi == ctor
+					if !okCaller {
+						// a helper expanded into the constructor
+						for _, h := range c.E.FnOf(ctor).Expanded() {
+							if h == fi {
+								okCaller = true
+							}
+						}
+					}
+					c.Check(okCaller, "C06.5-revision-label-writers", name, x.Pos(), "called by the versioned constructor, which pairs the label with the set the pod is built from",
+						"the revision label of a pod is set outside the versioned constructor: the pod can carry the label of a revision it was not built from")
+				}
+			}
+			return true
+		})
+	}
+	c.Floor("C06.5-revision-label-stores", nStore, 1)
+	c.Floor("C06.5-setPodRevision-calls", nCall, 1)
 }
 
 func (c *Ctx) constructorChain() {
